@@ -77,7 +77,7 @@ def _shape_pool(rng, tier):
     return pool
 
 
-def gen_cases(tier, seed):
+def _gen_cases(tier, seed):
     rng = gen.rng_for(seed, ID, tier)
     pool = _shape_pool(rng, tier)
     cs = itertools.count(1)
@@ -111,6 +111,15 @@ def gen_cases(tier, seed):
                                 R=int(rng.integers(1, 4)))
             for ukind in ("list", "ktensor"):
                 yield C(w="mttkrps", shape=list(shp), ukind=ukind, R=int(rng.integers(1, 4)))
+    # mttkrps: every position of the memory-optimal split (dominant first / last / interior mode) and >= 5 modes, where the left and
+    # right partial products each involve two or more distinct factor matrices
+    wide = [(7, 2, 3, 2), (2, 3, 2, 9), (2, 7, 2, 3), (3, 2, 8, 2), (2, 2, 2, 2, 3), (3, 2, 2, 2, 2), (2, 3, 2, 2, 3), (2, 2, 5, 2, 2), (2, 2, 2, 2, 2, 2),
+            (3, 2, 1, 2, 2, 2)]
+    if tier == "thorough":
+        wide += [gen.rand_shape(rng, N, 1, 4) for N in (4, 5, 5, 6) for _ in range(3)]
+    for shp in wide:
+        for ukind in ("list", "ktensor"):
+            yield C(w="mttkrps", shape=list(shp), ukind=ukind, R=int(rng.integers(2, 4)))
     # ttt
     reps = 1 if tier == "quick" else 6
     for _ in range(reps):
@@ -213,7 +222,7 @@ def _ground(case, rng, shape, base=None, fill=None):
         H["sumtensor"] = ST
     else:
         A = gen.sparsify(rng, gen.normals(rng, shape), fill)
-    H["tensor"] = ttb.tensor(np.array(A))
+    H["tensor"] = gen.mk_tensor(ttb, np.array(A, dtype=float), case.get("hist", "ctor"))
     nnz = int(np.count_nonzero(A))
     H["sptensor"] = gen.mk_sptensor(ttb, A, gen.stored_order(rng, nnz, "shuffled"))
     return np.array(A, dtype=float), H
@@ -283,11 +292,18 @@ def _try(ctx, op, fn, *args, _feat=None, **kw):
 
 
 # ------------------------------------------------------------------ oracles ----------------
+def gen_cases(tier, seed):
+    # dense-holder history: every third case reaches its dense operand by growth (subtensor assignment past the extent) instead of the constructor
+    for i, case in enumerate(_gen_cases(tier, seed)):
+        case["hist"] = "grown" if (i + int(seed)) % 3 == 1 else "ctor"
+        yield case
+
+
 def run_case(case, ctx):
     rng = np.random.default_rng(case["cseed"])
     shape = tuple(case["shape"])
     N = len(shape)
-    ctx.feat(N=N, has_singleton=bool(1 in shape), w=case["w"])
+    ctx.feat(N=N, has_singleton=bool(1 in shape), w=case["w"], hist=case.get("hist", "ctor"))
     globals()["_w_" + case["w"]](case, ctx, rng, shape, N)
 
 
@@ -353,7 +369,7 @@ def _w_mttkrp(case, ctx, rng, shape, N):
 
 def _w_mttkrps(case, ctx, rng, shape, N):
     A = gen.normals(rng, shape)
-    T = ttb.tensor(A.copy())
+    T = gen.mk_tensor(ttb, A, case.get("hist", "ctor"))
     R = case["R"]
     U = [gen.normals(rng, (s, R)) for s in shape]
     w = np.round(rng.uniform(0.5, 2.0, R), 4)
